@@ -595,3 +595,32 @@ def hash_flat(d):
                 else: out.append(str(b))
         else: out.append(x)
     return out
+
+def check_negate_poly():
+    """Element::negate (arkworks build) at coordinate level: the result is (-X : Y : Z : -T) up to the inner point's own negation,
+    in particular it keeps the representation invariant T*Z = X*Y that encoding relies on"""
+    items = items_for('ark'); obs = []
+    it = find_item(items, r'^ark_curve::encoding::<impl at [^>]*>::negate$')
+    def m_neg(I, fr, fn, a):
+        p = models.D(I, a[0])
+        if not (isinstance(p, Agg) and p.name == 'Projective'): return NotImplemented
+        x, y, t, z = p.fields
+        return Agg('Projective', [x.neg(), y, t.neg(), z])
+    PP = r'ark_ec::twisted_edwards::Projective<ark_curve::edwards::Decaf377EdwardsConfig>'
+    M = curve_models('ark', extra=[(rf'^<{PP} as core::ops::Neg>::neg$', m_neg)])
+    def body(I, h):
+        el, co = sym_element('ark', ['X', 'Y', 'Z', 'T']); h.locals['e'] = el
+        return I.call_item(it, [Ref(h, 'e', [])]), co
+    try: recs = run_paths(items, M, body)
+    except Exception as e:
+        return [Ob('ark:Element::negate (coordinate level)', 'inconclusive', f'{type(e).__name__}: {e} :: ' + ' <- '.join(getattr(e, 'mir_stack', [])[:3]), 0, 'mirsym/POLY')]
+    for r in recs:
+        if 'panic' in r: obs.append(Ob('ark:Element::negate (coordinate level)', 'violated', 'panics', 0, 'mirsym/POLY', None, {'kind': 'negate'})); continue
+        res, (X, Y, Z, T) = r['result']
+        x2, y2, z2, t2 = element_coords('ark', res)
+        inv = T.mul(Z).sub(X.mul(Y))
+        goals = [('T\'Z\' = X\'Y\' (representation invariant kept)', t2.mul(z2).sub(x2.mul(y2))), ('x-coordinate negated (X\'Z = -X Z\')', x2.mul(Z).add(X.mul(z2))), ('y-coordinate kept (Y\'Z = Y Z\')', y2.mul(Z).sub(Y.mul(z2)))]
+        for lbl, g in goals:
+            st, dt, info = certificate(g, [inv])
+            obs.append(Ob(f'ark:Element::negate: {lbl}', 'proved' if st == 'proved' else 'violated', info, dt, 'cofactor certificate + z3 identity', None, None if st == 'proved' else {'kind': 'negate'}))
+    return obs
